@@ -89,6 +89,7 @@ fn main() {
     let ctx = Ctx { tier, seed, verif_dir: verif_dir.clone(), shards, scale };
     let known = load_known(&verif_dir);
     let code = dispatch!(id.as_str(), &ctx, &known, replay.as_deref(),
+        "C01" => c01,
         "C03" => c03,
         "C04" => c04,
         "C05" => c05,
